@@ -83,6 +83,20 @@ PROPS = {
             "the default-timestamp use (shadow capture) has a default strictly greater than every stored timestamp",
         ],
     },
+    "C05": {
+        "level": "fault_enumeration",
+        "tests": [
+            T("TestC05Enum", "fleet", 1, 1, enum=True, qshards=8, shards=8, procs=4),
+            T("TestC05CleanerEnum", "fleet", 1, 1, enum=True, qshards=4, shards=8, procs=4),
+            T("TestC05Bucket", "fleet", 200, 24000, shards=16, qshards=8, procs=4),
+        ],
+        "assumptions": [
+            "a crash is modelled as the loss of all in-memory state at a yield point (between two LMDB transactions); fsync/power-loss durability and real object-store anomalies are out of reach",
+            "tomb sweeper off; the bucket is the in-memory backend behind the fault wrapper",
+            "downloads run in real background goroutines (1 ms polling): the exact interleaving of a replay may differ, the invariants are evaluated on the operation log after every bucket mutation",
+            "native-mode application writes are stamped with the wall clock and later than what they overwrite",
+        ],
+    },
     "C06": {
         "level": "exploration",
         "tests": [
